@@ -16,14 +16,23 @@ prop("C07", "exploration",
      "model. Second unit (enumerated completely, 1152 cases): a session admitted through one grant (every type, valid or expired) "
      "sends an intent (every type; same / other user; own / other delegate key; expiry future / past; leaf / non-leaf certificate) "
      "over its own AuthGrant tube - the target-side sequence checkIntent, AddAuthGrant of handleIntentCommunication with the real "
-     "functions; since no grant type authorizes issuing grants, any confirmation is a violation. Non-trivial = history containing a request on an admitted session that must be refused (different text, repeat, "
+     "functions; since no grant type authorizes issuing grants, any confirmation is a violation. Layer 2 (unit e2e, synctest bubble): "
+     "the REAL hopSession (newSession -> checkAuthorization -> start -> tube dispatch) behind a real transport handshake on the "
+     "simulated UDP network with real tube muxers; generated grant sets (user, delegate key, shell / command / local PF / remote PF, "
+     "windows around the clock) and request sequences by the harness-played delegate (exec with command text variants, exec with the "
+     "shell flag, local and remote port-forward requests, grant issuing for itself, clock steps); every answer the server gives is compared with "
+     "the same multiset model (login admitted iff a grant for exactly this user and key is stored; an action confirmed iff an unused, "
+     "effective, unexpired grant of the session matches it; each grant at most once). Non-trivial = history containing a request on an admitted session that must be refused (different text, repeat, "
      "expired, not yet effective, other kind, nothing left) or a connect that must be refused because the grant names another "
      "user / another key / was consumed; distinct by hash of the whole history.",
      ["'connect' and the exec gate are the sequences of checkAuthorization / startCodex as read in hopserver/session.go, re-stated in "
-      "the harness (verifAuthzLogin, verifAuthzExecAllowed); the real hopSession over a transport is layer 2",
-      "exec requests are gated by checkCmd and intent communications by checkIntent (both driven here); port-forwarding tubes are "
-      "dispatched by hopSession.start straight into the portforwarding package, there is no gate function to call, so that action "
-      "kind is out of reach of layer 1 (DESIGN.md section 6 row 10)",
+      "the harness (verifAuthzLogin, verifAuthzExecAllowed) for layer 1; layer 2 (unit e2e) runs the real hopSession over a transport and "
+      "needs no such restatement",
+      "exec requests are gated by checkCmd and intent communications by checkIntent (both driven at layer 1); port-forwarding tubes "
+      "are dispatched by hopSession.start into the portforwarding package and are reachable only at layer 2, where local "
+      "and remote port-forward control requests are driven (local: towards a unix socket of the harness; remote: a listen address "
+      "in a directory that does not exist, so the server answers the request - the authorization decision - and then gives up "
+      "listening; forwarded data is not exercised)",
       "no grant type authorizes issuing further grants, hence a grant-admitted session must never obtain a confirmation",
       "a shell grant is taken to cover every exec request that sets the shell flag, whatever command text it carries",
       "grants are stored with AddAuthGrant directly, as hoptests does; no authorized_keys files exist, so every admission is by grant"],
@@ -36,8 +45,9 @@ prop("C07", "exploration",
      text="Model-based search: generated histories of grant storage, connects, exec requests and clock steps run on a real HopServer / "
           "hopSession (stubbed clock and passwd lookup) and on a multiset model written from the statement; every admission and every "
           "checkCmd decision is compared with 'a matching, effective, unexpired, unused grant for this user and key exists', and the "
-          "consumption of grants with 'exactly that one'. Absence is not shown; non-exec action kinds are not reachable at this layer.",
+          "consumption of grants with 'exactly that one'; an end-to-end unit repeats the comparison through the real session over a "
+          "simulated transport, including port-forward and grant-issuing requests. Absence is not shown.",
      note="trusts the multiset model (written from the statement, honest baseline self-test) and rapid; checkAuthorization's and "
           "startCodex's gating sequences are re-stated in the harness",
      technique="stateful property-based testing (rapid) against a reference model with a virtual clock",
-     design="DESIGN.md section 4, C07 (layer 1)")
+     design="DESIGN.md section 4, C07 (layers 1 and 2; section 0.2)")
